@@ -2964,6 +2964,17 @@ impl Context {
                 // ローカル変数がスコープから外れるときに解放
                 if let Some((ptr, ty)) = ptr {
                     if ty.to_type().contains_boxed() || ty.to_type().contains_function() {
+                        // The value of the whole `let` expression may be the bound value itself
+                        // (`let l = Cons(..)  l`) or contain it. It outlives the variable, so it
+                        // takes its own reference before the variable's reference is released;
+                        // otherwise the boxes are freed while the result still refers to them.
+                        let (result_v, result_ty, _) = &result;
+                        if ty.to_type().contains_boxed()
+                            && result_ty.to_type().contains_boxed()
+                            && matches!(result_v.as_ref(), Value::Register(_))
+                        {
+                            self.insert_clone_recursively(result_v.clone(), *result_ty);
+                        }
                         // Load the value and release it
                         let value = self.push_inst(Instruction::Load(ptr, ty));
                         self.insert_release_recursively(value, ty);
